@@ -32,19 +32,38 @@ contract("system.System.system_mass", is_property=True,
          loops={1: dict(anchor="mol in self._molecules", allocates=False,
                         inv=["forall(lambda k: implies(0 <= k and k < _i1, system_mass - val(self._molecules[k].mixture._system_mass) <= 0.00000001))"])})
 
-contract("molecule.Molecule.generate", trusted=True,
-         why_trusted="folds element.generate (Stochastic.generate / SmilesToken.generate, both proved) over the elements. The loop invariant did not discharge within the budget: the "
-                     "growing molecule changes identity at every stochastic element (capping works on a deep copy, so the element returns a NEW MolGen unless it ended "
-                     "prematurely), so the invariant is 'my_mol is the prefix, or an object allocated by some earlier iteration', and heap reads through such a reference do not "
-                     "resolve at VC-generation time (tried: peeled first iteration, stable local, two contract variants, reference intervals learnt from fresh() clauses). "
-                     "C06's bounded driver checks the fold on all choice sequences. Assumed here only: returns a generator-owned molecule and reports which component made it",
-         props=["C13"], params=dict(self=Ref("Molecule"), prefix=NRef("MolGen"), rng=GENERATOR), defaults={"prefix": None, "rng": None},
+specfn('''
+def mol_wellposed(m):
+    return forall(lambda k: implies(0 <= k and k < len(m._elements) and isinstance(m._elements[k], Stochastic), wellposed_s(m._elements[k])))
+''')
+_MG = {
+    "molgen_wf(result)": "returns-a-well-formed-generator-owned-molecule",
+    "last_gen_mol is self and last_gen_result is result": "ghost-records-the-component",
+    "acc == old(acc)": "accumulated-mass-untouched",
+}
+_MG_GHOSTS = ["ghost.last_gen_mol", "ghost.last_gen_result", "ghost.choices", "ghost.last_p", "ghost.last_n", "ghost.last_pick", "ghost.last_rng",
+              "ghost.last_cand", "ghost.last_norm", "ghost.draws", "ghost.last_draw", "ghost.last_draw_rng", "ghost.last_draw_family", "ghost.last_draw_p1", "ghost.last_draw_p2",
+              "ghost.units", "ghost.mass_after", "ghost.open_after", "ghost.bonds", "ghost.bond_a", "ghost.bond_b", "ghost.bond_t", "ghost.at_site_choices", "ghost.d2_token"]
+_MG_LOOP_GHOSTS = [g for g in _MG_GHOSTS if g not in ("ghost.last_gen_mol", "ghost.last_gen_result")]
+# the growing molecule changes identity from element to element (capping works on a deep copy), so the frame is stated by ownership: among the objects that exist
+# when the fold starts, only generator-owned ones change (the incoming prefix and what hangs on it); the notation is never written
+_MG_OWNED = ["MolGen._mol@GEN", "MolGen.graph@GEN", "list@GEN", "BondDescriptor.weight@GEN", "BondDescriptor.transitions@GEN", "NxGraph.val@GEN"]
+contract("molecule.Molecule.generate",
+         props=["C06", "C13", "C04"], params=dict(self=Ref("Molecule"), prefix=NRef("MolGen"), rng=GENERATOR), defaults={"prefix": None, "rng": None},
          returns=Ref("MolGen"),
-         ensures=["fresh(result)", "last_gen_mol is self and last_gen_result is result", "acc == old(acc)"],
-         raises_may={"RuntimeError": "True", "ValueError": "True", "Exception": "True"},
-         modifies=["ghost.last_gen_mol", "ghost.last_gen_result", "ghost.choices", "ghost.last_p", "ghost.last_n", "ghost.last_pick", "ghost.last_rng",
-                   "ghost.last_cand", "ghost.last_norm", "ghost.draws", "ghost.last_draw", "ghost.last_draw_rng", "ghost.last_draw_family", "ghost.last_draw_p1", "ghost.last_draw_p2",
-                   "ghost.units", "ghost.mass_after", "ghost.open_after", "ghost.bonds", "ghost.bond_a", "ghost.bond_b", "ghost.bond_t", "ghost.at_site_choices", "ghost.d2_token"])
+         # the fold of element.generate over the elements (Stochastic.generate / SmilesToken.generate, both proved).  Every stochastic element is well posed (real
+         # precondition: capping need not terminate otherwise); a molecule has at least one element (object invariant of parsed molecules, assumed)
+         requires=["implies(not is_none(prefix), molgen_wf(prefix))",
+                   "mol_wellposed(self)"],
+         assumes=["len(self._elements) >= 1", "owner(self) == NOTATION and owner(self._elements) == NOTATION"],
+         ensures=list(_MG), labels=_MG,
+         ghost_on_return=["last_gen_mol = self", "last_gen_result = result"],
+         raises_may={"RuntimeError": "True", "ValueError": "True", "IndexError": "True", "TypeError": "True", "NotImplementedError": "True", "Exception": "True"},
+         modifies=_MG_OWNED + _MG_GHOSTS,
+         loops={1: dict(anchor="element in self._elements", locals={"my_mol": NRef("MolGen")},
+                        modifies=_MG_OWNED + _MG_LOOP_GHOSTS,
+                        inv=["implies(_i1 == 0, my_mol is prefix)", "implies(_i1 > 0, not is_none(my_mol))",
+                             "implies(not is_none(my_mol), molgen_wf(my_mol))"])})
 
 contract("core.BigSMILESbase.generate", props=["C13", "C15"],
          params=dict(self=Ref("System|Stochastic|SmilesToken|Molecule"), prefix=NRef("MolGen"), rng=GENERATOR), defaults={"prefix": None, "rng": None},
@@ -73,6 +92,10 @@ _YIELD = {
     _PINNED: "selection-probability-is-the-declared-mass-fraction[pinned-known-finding]",
     "sel_n == len(self._molecules) and sel_rng == rng": "component-drawn-among-all-components-with-the-supplied-generator",
 }
+# parsed systems belong to the notation (object invariant, assumed like stoch_inv): the system, its component list, the components and their element lists
+_SYS_NOTATION = ("owner(self) == NOTATION and owner(self._molecules) == NOTATION and forall(lambda j: implies(0 <= j and j < len(self._molecules), "
+                 "owner(self._molecules[j]) == NOTATION and owner(self._molecules[j]._elements) == NOTATION))")
+_ALL_WELLPOSED = "forall(lambda j: implies(0 <= j and j < len(self._molecules), mol_wellposed(self._molecules[j])))"
 ghost("last_pick_idx", INT)
 ghost("sel_p", ("map", INT, REAL))      # probability vector of the last COMPONENT selection (later picks inside Molecule.generate overwrite last_p)
 ghost("sel_n", INT)
@@ -81,7 +104,9 @@ ghost("sel_norm", REAL)
 
 contract("system.System.generator", is_property=True, props=["C13", "C14"],
          params=dict(self=Ref("System"), rng=GENERATOR), returns=None,
-         requires=["system_inv(self)"],
+         # every component is well posed (every end group of its stochastic objects is a leaf): the precondition of generation itself (C06)
+         requires=["system_inv(self)", "forall(lambda j: implies(0 <= j and j < len(self._molecules), mol_wellposed(self._molecules[j])))"],
+         assumes=[_SYS_NOTATION], allocs_owner="LOCAL",
          yield_ensures=list(_YIELD),
          ghost_on_yield=["acc = acc + mass(yielded._mol)"],
          ensures=["acc - old(acc) >= sysmass(self)", "self._generable"],
@@ -92,12 +117,12 @@ contract("system.System.generator", is_property=True, props=["C13", "C14"],
          clause_props={_YIELD[_PINNED]: ["C14"], "component-drawn-among-all-components-with-the-supplied-generator": ["C14", "C13"], "cover": ["C13", "C14"]},
          modifies=["ghost.acc", "ghost.last_pick_idx", "ghost.sel_p", "ghost.sel_n", "ghost.sel_rng", "ghost.sel_norm", "ghost.last_gen_mol", "ghost.last_gen_result", "ghost.choices", "ghost.last_p", "ghost.last_n", "ghost.last_pick",
                    "ghost.last_rng", "ghost.last_cand", "ghost.last_norm", "ghost.draws", "ghost.last_draw", "ghost.last_draw_rng", "ghost.last_draw_family", "ghost.last_draw_p1", "ghost.last_draw_p2", "ghost.units",
-                   "ghost.mass_after", "ghost.open_after", "ghost.bonds", "ghost.bond_a", "ghost.bond_b", "ghost.bond_t", "ghost.at_site_choices", "ghost.d2_token"],
-         loops={1: dict(anchor="generated_total_mass < self.system_mass",
+                   "ghost.mass_after", "ghost.open_after", "ghost.bonds", "ghost.bond_a", "ghost.bond_b", "ghost.bond_t", "ghost.at_site_choices", "ghost.d2_token"] + _MG_OWNED,
+         loops={1: dict(anchor="generated_total_mass < self.system_mass", modifies=list(_MG_OWNED),
                         ghost_modifies=["acc", "last_pick_idx", "sel_p", "sel_n", "sel_rng", "sel_norm", "last_gen_mol", "last_gen_result", "choices", "last_p", "last_n", "last_pick", "last_rng", "last_cand",
                                         "last_norm", "draws", "last_draw", "last_draw_rng", "last_draw_family", "last_draw_p1", "last_draw_p2", "units", "mass_after", "open_after", "bonds", "bond_a", "bond_b", "bond_t",
                                         "at_site_choices", "d2_token"],
-                        inv=["self._generable", "generated_total_mass == acc - old(acc)", "fresh(relative_fractions)",
+                        inv=["self._generable", _ALL_WELLPOSED, "generated_total_mass == acc - old(acc)", "fresh(relative_fractions)",
                              "len(relative_fractions) == len(self._molecules)",
                              "forall(lambda k: implies(0 <= k and k < len(relative_fractions), relative_fractions[k] == val(self._molecules[k].mixture._relative_mass)))"])})
 
@@ -111,7 +136,8 @@ _GEN = {
 }
 contract("system.System.generate", props=["C13", "C14", "C15"],
          params=dict(self=Ref("System"), prefix=NRef("MolGen"), rng=GENERATOR), defaults={"prefix": None, "rng": None},
-         returns=Ref("MolGen"), requires=["system_inv(self)"],
+         returns=Ref("MolGen"), requires=["system_inv(self)", "forall(lambda j: implies(0 <= j and j < len(self._molecules), mol_wellposed(self._molecules[j])))"],
+         assumes=[_SYS_NOTATION], allocs_owner="LOCAL",
          ensures=list(_GEN), labels=_GEN,
          raises_may={"RuntimeError": "True", "ValueError": "True", "TypeError": "True", "Exception": "True"},
          ghost_at={"mol_idx = rng.choice(range(len(relative_fractions)), p=relative_fractions / np.sum(relative_fractions))": ["last_pick_idx = mol_idx", "sel_p = last_p", "sel_n = last_n", "sel_rng = last_rng", "sel_norm = last_norm"]},
@@ -120,7 +146,7 @@ contract("system.System.generate", props=["C13", "C14", "C15"],
          modifies=["ghost.acc", "ghost.last_pick_idx", "ghost.sel_p", "ghost.sel_n", "ghost.sel_rng", "ghost.sel_norm", "ghost.last_gen_mol", "ghost.last_gen_result", "ghost.choices", "ghost.last_p", "ghost.last_n", "ghost.last_pick",
                    "ghost.last_rng", "ghost.last_cand", "ghost.last_norm", "ghost.draws", "ghost.last_draw", "ghost.last_draw_rng", "ghost.units",
                    "ghost.mass_after", "ghost.open_after", "ghost.bonds", "ghost.bond_a", "ghost.bond_b", "ghost.bond_t", "ghost.at_site_choices", "ghost.d2_token",
-                   "ghost.last_draw_family", "ghost.last_draw_p1", "ghost.last_draw_p2"])
+                   "ghost.last_draw_family", "ghost.last_draw_p1", "ghost.last_draw_p2"] + _MG_OWNED)
 
 # C14: the required law (mass shares converge to the declared fractions  <=>  p_i * M_i * f_j == p_j * M_j * f_i) does NOT follow from
 # the pinned selection law p_i = f_i / sum(f): z3 must find a counterexample (two components, different molecule masses).
